@@ -752,6 +752,48 @@ pub fn check(property: &str, tier: &str) -> i32 {
             println!("VIOLATION property={} replay={}", property, path.display());
         }
     }
+    if property == "C04" {
+        // refusals at the capacity limits: the boundary scenarios of C20, judged by C04's oracles
+        let kinds: [u64; 10] = [5, 6, 7, 8, 9, 10, 12, 14, 15, 2];
+        let rounds = if tier == "thorough" { 6 } else { 1 };
+        let jobs: Vec<u64> = (0..rounds).flat_map(|r| kinds.iter().map(move |k| r * 24 + k)).collect();
+        let nextj = AtomicU64::new(0);
+        let lim_found: Mutex<Vec<Found>> = Mutex::new(Vec::new());
+        let lim_agg = Mutex::new(Agg::default());
+        std::thread::scope(|s| {
+            for _ in 0..nthreads.min(8) {
+                s.spawn(|| loop {
+                    let j = nextj.fetch_add(1, Ordering::Relaxed) as usize;
+                    if j >= jobs.len() {
+                        break;
+                    }
+                    let t = crate::limits::scenario(seed, jobs[j]);
+                    let r = run_one(&t);
+                    lim_agg.lock().unwrap().absorb(&t, &r.stats, jobs[j]);
+                    if let Some(v) = r.violations.iter().find(|v| v.property() == "C04") {
+                        lim_found.lock().unwrap().push(Found { trace: t, violation: v.clone() });
+                    }
+                });
+            }
+        });
+        let la = lim_agg.into_inner().unwrap();
+        per_profile.push(("limits".to_string(), la.runs));
+        merge(&mut total, la);
+        let mut lf = lim_found.into_inner().unwrap();
+        lf.sort_by_key(|f| f.trace.run);
+        for f in lf.iter() {
+            let sig = f.violation.signature();
+            if reported.contains(&sig) {
+                continue;
+            }
+            reported.push(sig);
+            let (mt, mv, _) = minimise(f, 8);
+            let path = write_replay(property, &mt, &mv);
+            violations += 1;
+            println!("violation: check={} site={} ops={} message={}", mv.check, mv.site, mt.ops.len(), mv.message);
+            println!("VIOLATION property={} replay={}", property, path.display());
+        }
+    }
     report_known(&known, property, &mut known_hits);
     let wall = t0.elapsed().as_secs_f64();
     let rep = CheckReport {
